@@ -32,7 +32,12 @@ Consume(q, ans, ret) ==
 TRx == IsEvent("rx") /\ rxq' = Append(rxq, [kind |-> Ev.kind, n |-> Ev.n]) /\ Keep(<<txq, incb>>) /\ Keep(RVars) /\ Keep(WVars)
 TTx == IsEvent("tx") /\ txq' = Append(txq, [kind |-> Ev.kind, n |-> Ev.n]) /\ Keep(<<rxq, incb>>) /\ Keep(RVars) /\ Keep(WVars)
 Pass(e) == IsEvent(e) /\ Keep(<<rxq, txq, incb>>) /\ Keep(RVars) /\ Keep(WVars)
-TPass == Pass("poll") \/ Pass("tick") \/ Pass("run_call") \/ Pass("run_ret") \/ Pass("env") \/ Pass("quiescent")
+\* the loop returns non-zero only when it reports a refused allocation of its own or of a callback re-arming a request
+\* (C14); what was buffered or awaited at that moment is then no longer owed (werr)
+TRunRet == /\ IsEvent("run_ret") /\ (Ev.rc # 0 => Ev.inj > 0)
+           /\ werr' = (werr \/ Ev.rc # 0)
+           /\ Keep(<<written, handed, failed, failcbs, reserved, walive, rxq, txq, incb>>) /\ Keep(RVars)
+TPass == Pass("poll") \/ Pass("tick") \/ Pass("run_call") \/ TRunRet \/ Pass("env") \/ Pass("quiescent")
 
 \* ------------------------------- reader -------------------------------
 TRInit == /\ IsEvent("rinit") /\ ~ralive /\ (Ev.ok \/ Ev.inj > 0) /\ ralive' = Ev.ok
@@ -102,7 +107,7 @@ TFailCb == /\ IsEvent("fail_cb") /\ walive /\ failcbs = 0 /\ (failed \/ Ev.inj >
 \* end of the execution (the kernel had nothing more to offer, or the program ended)
 TEnd == /\ IsEvent("end") /\ incb = 0
         \* a wait still pending is legitimate only if the peer never sent enough and neither closed nor failed
-        /\ (Ev.pending_wait # 0) => (waiting.id = Ev.pending_wait /\ arrived - consumed < waiting.k /\ rxq = <<>>)
+        /\ (Ev.pending_wait # 0) => (waiting.id = Ev.pending_wait /\ (werr \/ (arrived - consumed < waiting.k /\ rxq = <<>>)))
         /\ (waiting.id # 0) => Ev.pending_wait = waiting.id
         \* the whole of it when the transport never fails (and the kernel kept accepting)
         /\ (walive /\ ~failed /\ ~werr /\ reserved = -1 /\ txq # <<>> /\ Head(txq).kind = "DATA") => handed = written
